@@ -20,20 +20,34 @@ import (
 type c08Op struct {
 	Name string
 	Q    string
+	// Ref: answered without faults - what the operation receives alone is taken from the reference
+	// model (a fresh gateway's answer), not only from this gateway, whose earlier requests may have left something behind
+	Ref bool
+}
+
+// c08Pool2: operations that share nothing but could be made to (no variables object and variable
+// defaults of their own), and gateway-answered root fields next to failing service fields
+var c08Pool2 = []c08Op{
+	{"default5", "query ($a: Int = 5) { echo(x: $a) }", true},
+	{"default8", "query ($a: Int = 8) { echo(x: $a) }", true},
+	{"nodefault", "query ($a: Int) { echo(x: $a) }", true},
+	{"typename+transport-fault", "{ __typename v { w { b } } }", false},
+	{"schema+svc-errors", "{ __schema { queryType { name } } v { a } }", false},
+	{"typename+ok", "{ __typename echo(x: 3) }", false},
 }
 
 var c08Pool = []c08Op{
-	{"q-s0", "{ echo(x: 3) }"},
-	{"q-s1", "{ n2 { title } }"},
-	{"q-cross", "{ n1s { name phone } }"},
-	{"q-deep", "{ n2 { owner { name n2s { title } } } }"},
-	{"mutation", "mutation { incr(by: 3) }"},
-	{"introspection", "{ __schema { queryType { name } } }"},
-	{"invalid", "{ nope }"},
-	{"svc-errors", "{ v { a } }"},            // the service answers this one with GraphQL errors
-	{"transport-fault", "{ v { w { b } } }"}, // the call carrying this one fails at transport level
-	{"slow", "{ n1s { n2s { owner { phone } } } }"},
-	{"ambiguous", "query A { echo } query B { echo }"}, // valid document, rejected after validation (no operationName)
+	{Name: "q-s0", Q: "{ echo(x: 3) }"},
+	{Name: "q-s1", Q: "{ n2 { title } }"},
+	{Name: "q-cross", Q: "{ n1s { name phone } }"},
+	{Name: "q-deep", Q: "{ n2 { owner { name n2s { title } } } }"},
+	{Name: "mutation", Q: "mutation { incr(by: 3) }"},
+	{Name: "introspection", Q: "{ __schema { queryType { name } } }"},
+	{Name: "invalid", Q: "{ nope }"},
+	{Name: "svc-errors", Q: "{ v { a } }"},            // the service answers this one with GraphQL errors
+	{Name: "transport-fault", Q: "{ v { w { b } } }"}, // the call carrying this one fails at transport level
+	{Name: "slow", Q: "{ n1s { n2s { owner { phone } } } }"},
+	{Name: "ambiguous", Q: "query A { echo } query B { echo }"}, // valid document, rejected after validation (no operationName)
 }
 
 func c08Fault(q string) *a.Fault {
@@ -53,13 +67,25 @@ func c08Harness(world string, ops []c08Op, cfg a.Config, fresh bool) explore.Har
 	h.setup(h)
 	h.fresh = fresh
 	// expected: what each operation receives when sent alone (pass-through mode)
+	// (under the scheduler, default schedule: a crash of the gateway is a verdict, not the end of the check)
 	want := make([]string, len(ops))
-	for i, o := range ops {
-		h.fed.Fakes.Reset()
-		_, body := h.fed.Post(bodyOf(o.Q, nil), "application/json")
-		var v interface{}
-		json.Unmarshal(body, &v)
-		want[i] = canonResp(v)
+	pre := vrt.Run(vrt.Config{Horizon: 400000, NoKeys: true}, func() {
+		for i, o := range ops {
+			h.fed.Fakes.Reset()
+			_, body := h.fed.Post(bodyOf(o.Q, nil), "application/json")
+			var v interface{}
+			json.Unmarshal(body, &v)
+			want[i] = canonResp(v)
+			if o.Ref {
+				if ob := h.fed.Run(a.Case{Q: o.Q}); ob.Valid && ob.RefErr == "" {
+					want[i] = canonResp(map[string]interface{}{"data": ob.RefData})
+				}
+			}
+		}
+	})
+	aloneVerdict := verdictOfSched(pre)
+	if aloneVerdict != "" {
+		aloneVerdict = "an operation of the batch sent alone: " + aloneVerdict
 	}
 	var list []json.RawMessage
 	for _, o := range ops {
@@ -82,6 +108,9 @@ func c08Harness(world string, ops []c08Op, cfg a.Config, fresh bool) explore.Har
 			done = true
 		}
 		check := func(s *vrt.Sched) (string, string) {
+			if aloneVerdict != "" {
+				return aloneVerdict, aloneVerdict
+			}
 			if v := verdictOfSched(s); v != "" {
 				return v, v
 			}
@@ -141,7 +170,7 @@ func c08Batches(maxLen int, pool []c08Op) [][]c08Op {
 func init() {
 	Specs["C08"] = &Spec{
 		ID: "C08",
-		Rule: "scenario = one client batch over an 11-operation pool (queries on either service, cross-service and 3-level queries, a mutation, introspection, an invalid operation, an ambiguous two-operation document, an operation whose service answers with errors, " +
+		Rule: "scenario = one client batch over an 11-operation pool and, separately, over a 6-operation pool (variables with different defaults and no variables object, gateway-answered root fields next to failing and healthy service fields; the fault-free ones are also held to the reference model's answer); first pool: (queries on either service, cross-service and 3-level queries, a mutation, introspection, an invalid operation, an ambiguous two-operation document, an operation whose service answers with errors, " +
 			"one whose downstream call fails at transport level); two granularities: operation-grained (scheduling choices between the goroutine subtrees of different operations, default order inside an operation: quick length<=2 at preemption bound 1 and length 3 at bound 0; " +
 			"thorough bound 2 / 1) and fine-grained (every goroutine, every visible operation: two two-operation batches at bound 1 (thorough: 5 batches at bound 1, one at bound 2)); state-cached; " +
 			"every schedule within the bound of the real Gateway.Handler (rewritten sources) is executed; oracle per execution: array of N results, result i == the answer operation i receives alone, no deadlock / fatal / leak; non-trivial = >1 execution",
@@ -202,12 +231,28 @@ func init() {
 			if tier == "thorough" {
 				small = append(small, pick("invalid", "q-s0"), pick("q-s1", "introspection"), pick("q-s0", "q-s0"), pick("mutation", "q-s1"))
 			}
+			all3b := c08Batches(3, c08Pool2)
+			var le2b, eq3b [][]c08Op
+			for _, b := range all3b {
+				if len(b) == 0 {
+					continue
+				}
+				if len(b) <= 2 {
+					le2b = append(le2b, b)
+				} else {
+					eq3b = append(eq3b, b)
+				}
+			}
 			if tier == "quick" {
 				add([][]c08Op{pick("invalid", "q-s0"), pick("introspection", "q-s1")}, 1, 0, a.DefaultConfig) // fine-grained, longest first
+				add(le2b, 1, 1, a.DefaultConfig)
+				add(eq3b, 0, 1, a.DefaultConfig)
 				add(le2, 1, 1, a.DefaultConfig)
 				add(eq3, 0, 1, a.DefaultConfig)
 				return out
 			}
+			add(le2b, 2, 1, a.DefaultConfig)
+			add(eq3b, 1, 1, a.DefaultConfig)
 			add(le2, 2, 1, a.DefaultConfig)
 			add(eq3, 1, 1, a.DefaultConfig)
 			add(le2, 1, 1, a.Config{Merger: "extend", Planner: "cached", Hint: true})
